@@ -93,7 +93,7 @@ impl Property for P {
     fn workloads(&self, tier: Tier) -> Vec<Workload> {
         let mut v = vec![Workload::new("every-n", RANGE, true, "every n in 0..=3*10248+64")];
         if tier == Tier::Thorough {
-            v.push(Workload::new("random-n", 200_000, false, "random n up to 2^22, biased to multiples of 10248 +-16"));
+            v.push(Workload::new("random-n", 400_000, false, "random n up to 2^22, biased to multiples of 10248 +-16"));
         } else {
             v.push(Workload::new("random-n", 4_000, false, "random n up to 2^22, biased to multiples of 10248 +-16"));
         }
